@@ -150,17 +150,17 @@ Scenario generate(const std::string& prop, uint64_t seed, const std::string& tie
     if (prop == "C09") sc.executor = r.chance(0.3) ? "seqtsm" : "omptsm";
     else if (prop == "C18") { sc.executor = r.chance(0.25) ? "seq" : "omp"; sc.kernel = r.chance(0.5) ? "counter_weight" : "counter_test"; }
     else if (prop == "C02") {
-        static const char* ex[] = {"seq", "omp", "omp", "seqtsm", "omptsm", "omp", "specx", "specxtsm"};
-        sc.executor = ex[r.below(8)];
+        static const char* ex[] = {"seq", "omp", "omp", "seqtsm", "omptsm", "omp", "specx", "specxtsm", "starpu", "starputsm"};
+        sc.executor = ex[r.below(10)];
     } else if (prop == "C12") {
-        static const char* ex[] = {"seq", "omp", "omp", "seqtsm", "omptsm", "omp", "specx", "specxtsm"};
-        sc.executor = ex[r.below(8)];
+        static const char* ex[] = {"seq", "omp", "omp", "seqtsm", "omptsm", "omp", "specx", "specxtsm", "starpu", "starputsm"};
+        sc.executor = ex[r.below(10)];
     } else if (prop == "C13") {
         static const char* ex[] = {"seq", "omp", "omp", "seqtsm", "omptsm", "omp"};
         sc.executor = ex[r.below(6)];
     } else {
-        static const char* ex[] = {"omp", "omp", "omp", "omptsm", "omptsm", "specx", "specxtsm", "seq", "seqtsm"};
-        sc.executor = ex[r.below(prop == "C03" ? 7 : 9)];
+        static const char* ex[] = {"omp", "omp", "omp", "omptsm", "omptsm", "specx", "specxtsm", "starpu", "starputsm", "seq", "seqtsm"};
+        sc.executor = ex[r.below(prop == "C03" ? 9 : 11)];
     }
 
     if (const char* f = getenv("TBFSIM_FORCE_EXECUTOR")) sc.executor = f;
@@ -219,6 +219,7 @@ Scenario generate(const std::string& prop, uint64_t seed, const std::string& tie
     if (prop == "C12") sc.upper = long(r.below(uint64_t(sc.height + 1)));
     sc.threadsCtor = 1 + int(r.below(16));
     sc.threadsExec = sc.threadsCtor;
+    sc.ctorWithKernel = r.chance(0.4);
     if (prop != "C18" && r.chance(0.25)) sc.threadsExec = 1 + int(r.below(16));
 
     HistOp full; full.op = "execute"; full.flags = F_ALL;
